@@ -91,8 +91,44 @@ pub fn event_spec() -> impl Strategy<Value = EventSpec> {
   )
 }
 
+/// The record keys an event only carries when it has the attribute.
+pub const OPTIONAL_KEYS: &[&str] = &["message", "span_id", "parent_id", "thread_id", "thread_name"];
+
+fn attribute_present(e: &EventSpec, key: &str) -> bool {
+  match key {
+    "message" => e.message.is_some(),
+    "span_id" => e.span_id.is_some(),
+    "parent_id" => e.parent_id.is_some(),
+    "thread_id" => e.thread_id.is_some(),
+    "thread_name" => e.thread_name.is_some(),
+    _ => true,
+  }
+}
+
+/// The class "events with absent optional attributes x reserved field names": 1-3 custom fields
+/// named like optional record keys, the event's own attribute of that name removed (`strip`) or
+/// kept as generated.  (Plain data once generated: the scenario is still just an `EventSpec`.)
+fn collisions() -> impl Strategy<Value = Vec<(u16, Val, bool)>> {
+  prop::collection::vec((any::<u16>(), val(), prop::bool::weighted(0.7)), 1..=3)
+}
+
 pub fn strategy() -> impl Strategy<Value = JsonCase> {
-  (any::<bool>(), event_spec()).prop_map(|(flatten, event)| JsonCase { flatten, event })
+  (prop::bool::weighted(0.6), event_spec(), prop::option::weighted(0.25, collisions())).prop_map(|(flatten, mut event, coll)| {
+    for (k, v, strip) in coll.unwrap_or_default() {
+      let key = OPTIONAL_KEYS[vcore::idx(k, OPTIONAL_KEYS.len())];
+      if strip {
+        match key {
+          "message" => event.message = None,
+          "span_id" => event.span_id = None,
+          "parent_id" => event.parent_id = None,
+          "thread_id" => event.thread_id = None,
+          _ => event.thread_name = None,
+        }
+      }
+      event.fields.push((SText::lit(key), v));
+    }
+    JsonCase { flatten, event }
+  })
 }
 
 pub fn log_value(v: &Val) -> LogValue {
@@ -280,6 +316,16 @@ pub fn execute(c: &JsonCase) -> Result<CaseReport, Failure> {
   }
   if ev.fields.keys().any(|k| CORE_KEYS.contains(&k.as_str()) || k == "fields") {
     rep.class(format!("json/{mode}/reserved_key"));
+  }
+  // a custom field named like an optional record key, on an event with / without that attribute
+  for k in OPTIONAL_KEYS {
+    if ev.fields.contains_key(*k) {
+      let has = attribute_present(&c.event, k);
+      rep.class(format!("json/{mode}/optional_key_field/{}", if has { "attribute_present" } else { "attribute_absent" }));
+      if !has {
+        rep.class(format!("json/{mode}/optional_key_field/attribute_absent/{k}"));
+      }
+    }
   }
   Ok(rep)
 }
